@@ -178,6 +178,17 @@ class _DropAnn(ast.NodeTransformer):
         return n
 
     def visit_Expr(self, n):
+        # yield from E  ->  for _y in E: yield _y     (plain iteration; generators of this package take no send())
+        if self.depth > 0 and isinstance(n.value, ast.YieldFrom):
+            self.yf = getattr(self, "yf", 0) + 1
+            v = f"_y{self.yf}"
+            lp = ast.For(ast.Name(v, ast.Store()), n.value.value, [ast.Expr(ast.Yield(ast.Name(v, ast.Load())))], [])
+            ast.copy_location(lp, n)
+            ast.fix_missing_locations(lp)
+            for x in ast.walk(lp):
+                if hasattr(x, "lineno"):
+                    x.lineno = x.end_lineno = n.lineno
+            return lp
         # X.extend([a, b]) -> X.append(a); X.append(b)
         c = n.value
         if self.depth > 0 and isinstance(c, ast.Call) and isinstance(c.func, ast.Attribute) and c.func.attr == "extend" \
